@@ -45,7 +45,7 @@ FIRST = {"C01-r6m1": "obligation only", "C06-r6m1": "obligation only", "C02-r6m2
 print("| seeded change | what it is | suite with patch | caught | failing input | via | replay keys | first run |")
 print("|---|---|---|---|---|---|---|---|")
 for name in sorted(D):
-    m = json.load(open(f"/verif/seeded/{name}/meta.json"))
+    m = json.load(open(os.path.join(os.path.dirname(os.path.dirname(os.path.abspath(__file__))), "seeded", name, "meta.json")))
     ev = m.get("evaluation", {}); q = ev.get("quick", {})
     reps = q.get("replays", [])
     keys = sorted({r.get("key") for r in reps if r.get("key")})
